@@ -334,12 +334,19 @@ func (s *Module) defineSyncStage() error {
 				zap.String("stateRoot", header.PrevStateRoot.StringBE()))
 			pool := NewPool()
 			pool.Add(header.PrevStateRoot, []byte{})
+			processed := make(map[util.Uint256]struct{})
 			err = s.billet.Traverse(func(_ []byte, n mpt.Node, _ []byte) bool {
 				nPaths, ok := pool.TryGet(n.Hash())
 				if !ok {
+					if _, ok = processed[n.Hash()]; ok {
+						// The node is reachable by more than one path and all its
+						// paths known so far were handled at the previous visit.
+						return false
+					}
 					// if this situation occurs, then it's a bug in MPT pool or Traverse.
 					panic("failed to get MPT node from the pool")
 				}
+				processed[n.Hash()] = struct{}{}
 				pool.Remove(n.Hash())
 				childrenPaths := make(map[util.Uint256][][]byte)
 				for _, path := range nPaths {
